@@ -28,7 +28,11 @@ META = {
             'grid instead of multiplying; candidates = each bound -1/0/+1, extremes of the size -1/0/+1, 0, None, '
             "'', whitespace-padded and over-long strings, convertible and non-convertible foreign types; paths = "
             'ctor, assign, set, get, exists, select(kw), select(lambda). Distinct = distinct triple; trivial = none '
-            '(declarations pony rejects at mapping time are counted and skipped).',
+            '(declarations pony rejects at mapping time are counted and skipped). Relationship part: to-one attribute '
+            'Required/Optional x nullable {None,True,False} x py_check {None, by target pk, by target attribute} x reverse '
+            '{Set, one-to-one Optional, target with composite pk}; candidates = each of 5 target objects as instance and '
+            'as raw pk (also 1-tuple / str-convertible pk), None, wrong arity, wrong type, object of another entity, '
+            'missing target (no reference); same seven paths.',
     'assumptions': [
         'documented normalisation is taken from the Converter classes (no docs in the tree): str->int via int(), '
         'anything->float via float(), float->Decimal via repr, str autostrip default True, bool(x), '
@@ -36,6 +40,8 @@ META = {
         'plain int is 32-bit signed unless size/unsigned say otherwise (pony default size)',
         'NaN against min/max has no reference (skipped); date-only strings for datetime are outside the model',
         'SQLite provider; other providers differ only in varchar default length and uint64 support',
+        'relationship attributes: Optional to-one attributes are nullable; a raw pk (or tuple of raw pk columns, with the '
+        'pk attribute\'s own conversion) denotes the target object; existence of the target row is not a declared constraint',
     ],
     'shims': [],
     'exhaustive_tiers': ['quick', 'thorough'],
@@ -550,6 +556,210 @@ def judge(ctx, decl, dk, v, path, outcome, base_id, base_n):
     ctx.violation(witness, mechanism='C08-' + why)
 
 
+
+# ----------------------------------------------------------------------------------------------------
+# to-one relationship attributes: Required/Optional x nullable x py_check (by target pk / by target attribute)
+# x reverse kind (Set, one-to-one Optional, target with composite pk); same seven paths, same model shape:
+# value accepted iff it denotes an existing target object (instance, raw pk, 1-tuple/tuple raw pk, str convertible
+# to the pk), None only for Optional, and the declared py_check holds for the target object.
+ROOMS = [(2, 0), (3, 0), (4, 1), (5, 1), (6, 0)]          # (number, floor); base link is room 6 (passes every check)
+REL_CHECKS = {
+    None: None,
+    'pk_even': lambda r: r.number % 2 == 0,
+    'floor0': lambda r: r.floor == 0,
+}
+
+
+def rel_grid():
+    out = []
+    for reverse in ('set', 'one2one', 'composite'):
+        for kind in ('Required', 'Optional'):
+            for nullable in (None, True, False):
+                for chk in (None, 'pk_even', 'floor0'):
+                    out.append(dict(kind=kind, type='relation', reverse=reverse, nullable=nullable, py_check=chk))
+    return out
+
+
+def rel_build(decl):
+    from pony import orm
+    db = orm.Database()
+    kw = {}
+    if decl.get('nullable') is not None: kw['nullable'] = decl['nullable']
+    if decl.get('py_check'): kw['py_check'] = REL_CHECKS[decl['py_check']]
+    cls = orm.Required if decl['kind'] == 'Required' else orm.Optional
+    if decl['reverse'] == 'composite':
+        # composite primary key declared the documented way: PrimaryKey(attr, attr) inside the class body
+        src = ("class Room(db.Entity):\n"
+               "    number = orm.Required(int)\n    tag = orm.Required(str)\n    floor = orm.Required(int)\n"
+               "    guests = orm.Set('G')\n    orm.PrimaryKey(number, tag)\n")
+        scope = {'db': db, 'orm': orm}
+        exec(src, scope)
+        Room = scope['Room']
+    else:
+        back = orm.Set('G') if decl['reverse'] == 'set' else orm.Optional('G')
+        Room = type('Room', (db.Entity,), {'number': orm.PrimaryKey(int), 'floor': orm.Required(int), 'guests': back})
+    G = type('G', (db.Entity,), {'r': cls(Room, **kw)})
+    db.bind('sqlite', ':memory:')
+    db.generate_mapping(create_tables=True)
+    return db, Room, G
+
+
+def rel_pk(decl, n):
+    return (n, 't%d' % n) if decl['reverse'] == 'composite' else n
+
+
+def rel_candidates(decl):
+    """(label, maker(Room, G, base_obj) -> value, target room number or None, verdict hint)"""
+    comp = decl['reverse'] == 'composite'
+    C = []
+    for n, fl in ROOMS:
+        C.append(('obj:%d' % n, (lambda Room, G, n=n: Room[rel_pk(decl, n)]), n, 'target'))
+        C.append(('rawpk:%d' % n, (lambda Room, G, n=n: rel_pk(decl, n)), n, 'target'))
+    if comp:
+        C.append(('rawpk_list:2', lambda Room, G: [2, 't2'], None, 'reject'))
+        C.append(('rawpk_short_tuple', lambda Room, G: (2,), None, 'reject'))
+        C.append(('rawpk_scalar', lambda Room, G: 2, None, 'reject'))
+        C.append(('rawpk_strnum:4', lambda Room, G: ('4', 't4'), 4, 'target'))
+    else:
+        C.append(('rawpk_tuple:2', lambda Room, G: (2,), 2, 'target'))
+        C.append(('rawpk_tuple:5', lambda Room, G: (5,), 5, 'target'))
+        C.append(('rawpk_str:4', lambda Room, G: '4', 4, 'target'))
+        C.append(('rawpk_str:3', lambda Room, G: ' 3 ', 3, 'target'))
+        C.append(('rawpk_long_tuple', lambda Room, G: (2, 3), None, 'reject'))
+        C.append(('rawpk_bad_str', lambda Room, G: 'abc', None, 'reject'))
+        C.append(('rawpk_float', lambda Room, G: 2.5, None, 'reject'))
+        C.append(('rawpk_list', lambda Room, G: [2], None, 'reject'))
+    C.append(('none', lambda Room, G: None, None, 'none'))
+    C.append(('wrong_entity', lambda Room, G: G.select().first(), None, 'reject_if_obj'))
+    C.append(('missing_target', lambda Room, G: rel_pk(decl, 98), None, 'free'))
+    return C
+
+
+def rel_model(decl, cand):
+    label, maker, n, hint = cand
+    if hint == 'free': return FREE
+    if hint == 'reject': return REJECT
+    if hint == 'reject_if_obj': return REJECT            # judged only when a G object exists (see run_rel_decl)
+    if hint == 'none':
+        return REJECT if decl['kind'] == 'Required' else ('accept', None)   # Optional relationships are nullable
+    chk = REL_CHECKS[decl.get('py_check')]
+    if chk is not None:
+        floor = dict(ROOMS)[n]
+        class _R(object): pass
+        r = _R(); r.number, r.floor = n, floor
+        if not chk(r): return REJECT
+    return ('accept', n)
+
+
+def rel_show(x):
+    """jsonable view of a path result: entity instance -> [class, pk]"""
+    if x is None or isinstance(x, (bool, int, str)): return x
+    if isinstance(x, (list, tuple)): return [rel_show(i) for i in x]
+    if hasattr(x, '_pk_attrs_'): return [type(x).__name__, x.get_pk()]
+    return repr(x)
+
+
+def run_rel_decl(ctx, decl, only=None):
+    from pony import orm
+    dk = decl_key(decl)
+    try:
+        db, Room, G = rel_build(decl)
+    except Exception as e:
+        ctx.count('decl.rejected_by_pony'); ctx.count('decl.rejected.%s' % type(e).__name__)
+        lst = ctx.extra.setdefault('rejected_declaration_samples', [])
+        if len(lst) < 12: lst.append({'decl': dk, 'error': '%s: %s' % (type(e).__name__, str(e)[:120])})
+        return
+    ctx.count('decl.mapped'); ctx.count('decl.mapped.relation')
+    comp = decl['reverse'] == 'composite'
+    try:
+        with orm.db_session:
+            for n, fl in ROOMS:
+                if comp: Room(number=n, tag='t%d' % n, floor=fl)
+                else: Room(number=n, floor=fl)
+        cands = rel_candidates(decl)
+        if only is not None: cands = [c for c in cands if c[0] == only[0]]
+        results = {}
+
+        def linked(o):
+            r = o.r
+            return None if r is None else (r.number)
+
+        # constructor: everything in one session that is rolled back
+        # (one session per candidate: with a one-to-one reverse two new objects cannot link the same target)
+        for i, c in enumerate(cands):
+            with orm.db_session:
+                results[i, 'ctor'] = attempt(lambda: linked(G(r=c[1](Room, G))))
+                orm.rollback()
+        with orm.db_session:
+            o = G(r=Room[rel_pk(decl, 6)]); orm.flush(); base_id = o.id
+        for i, c in enumerate(cands):
+            with orm.db_session:
+                o = G[base_id]
+                def f_assign():
+                    o.r = c[1](Room, G)
+                    return linked(o)
+                results[i, 'assign'] = attempt(f_assign)
+                orm.rollback()
+            with orm.db_session:
+                o = G[base_id]
+                def f_set():
+                    o.set(r=c[1](Room, G))
+                    return linked(o)
+                results[i, 'set'] = attempt(f_set)
+                orm.rollback()
+            with orm.db_session:
+                def f_get():
+                    x = G.get(r=c[1](Room, G))
+                    return None if x is None else x.id
+                results[i, 'get'] = attempt(f_get)
+            with orm.db_session:
+                results[i, 'exists'] = attempt(lambda: bool(G.exists(r=c[1](Room, G))))
+            with orm.db_session:
+                results[i, 'select_kw'] = attempt(lambda: [x.id for x in G.select(r=c[1](Room, G))])
+            with orm.db_session:
+                def f_lambda():
+                    v = c[1](Room, G)
+                    return [x.id for x in G.select(lambda g: g.r == v)]
+                results[i, 'select_lambda'] = attempt(f_lambda)
+
+        for (i, path), outcome in sorted(results.items(), key=lambda kv: (kv[0][0], PATHS.index(kv[0][1]))):
+            if only is not None and path != only[1]: continue
+            c = cands[i]
+            m = rel_model(decl, c)
+            if c[3] == 'reject_if_obj' and path == 'ctor': m = FREE      # no G object exists yet in that session
+            ctx.case(('C08rel', dk, c[0], path), sample={'decl': dk, 'value': c[0], 'path': path, 'model': m[0], 'pony': outcome[0]})
+            ctx.count('path.%s' % path); ctx.count('relation.path.%s' % path)
+            if path == 'select_lambda' and not (m[0] == 'accept' and (c[0].startswith('obj:') or c[0] == 'none')):
+                ctx.count('lambda.record_only.%s' % outcome[0])
+                if m is REJECT and outcome[0] == 'ok': ctx.count('lambda.invalid_value_not_validated')
+                continue
+            if m is FREE:
+                ctx.count('outcome.no_reference'); continue
+            if m is REJECT:
+                ok, why = outcome[0] == 'exc', 'accepted-invalid'
+            elif outcome[0] == 'exc':
+                ok, why = False, 'rejected-valid'
+            elif path in ('ctor', 'assign', 'set'):
+                ok, why = outcome[1] == m[1], 'wrong-normalised-value'
+            else:
+                expect = (m[1] == 6)                                   # the only G row is linked to room 6
+                r = outcome[1]
+                found = (r is not None) if path == 'get' else (bool(r) if path == 'exists' else (base_id in r))
+                ok, why = found == expect, 'lookup-found-mismatch'
+            if ok:
+                ctx.count('outcome.agree'); ctx.count('outcome.agree.%s' % ('accept' if m[0] == 'accept' else 'reject'))
+                ctx.count('relation.agree.%s' % ('accept' if m[0] == 'accept' else 'reject'))
+                if decl.get('py_check') and m is REJECT and c[3] == 'target': ctx.count('relation.py_check_rejections_observed')
+                if outcome[0] == 'exc': ctx.count('pony_raised.%s' % outcome[1])
+            else:
+                ctx.count('outcome.disagree')
+                ctx.violation({'decl': dk, 'value': c[0], 'value_type': 'relation-candidate', 'path': path,
+                               'model': [m[0]] + [repr(x) for x in m[1:]],
+                               'pony': [outcome[0]] + [repr(x) for x in outcome[1:]], 'disagreement': why},
+                              mechanism='C08-relation-' + why)
+    finally:
+        dispose(db)
+
 # ----------------------------------------------------------------------------------------------------
 def run(ctx):
     decls = grid(ctx.tier)
@@ -557,7 +767,12 @@ def run(ctx):
     mine = [d for i, d in enumerate(decls) if i % ctx.nshards == ctx.shard]
     for n, d in enumerate(mine):
         run_decl(ctx, d)
-    ctx.count('decl.total', len(mine))
+    rels = rel_grid()
+    ctx.extra['grid_relationship_declarations'] = len(rels)
+    rmine = [d for i, d in enumerate(rels) if i % ctx.nshards == ctx.shard]
+    for d in rmine:
+        run_rel_decl(ctx, d)
+    ctx.count('decl.total', len(mine) + len(rmine))
     # floors: the deciding monitor is the per-path outcome comparison
     per_shard = max(1, len(mine))
     for p in PATHS:
@@ -565,11 +780,19 @@ def run(ctx):
     ctx.floor('outcome.agree.accept', per_shard * 10)
     ctx.floor('outcome.agree.reject', per_shard * 10)
     ctx.floor('decl.mapped', int(per_shard * 0.5))
+    if rmine:
+        ctx.floor('relation.agree.accept', len(rmine) * 8)
+        ctx.floor('relation.agree.reject', len(rmine) * 4)
+        if any(d.get('py_check') for d in rmine): ctx.floor('relation.py_check_rejections_observed', 6)
 
 
 def replay(ctx, witness):
     import ast
     dk = witness['decl']
+    if dk.get('type') == 'relation':
+        for d in rel_grid():
+            if decl_key(d) == dk: run_rel_decl(ctx, d, only=(witness['value'], witness['path'])); return
+        print('declaration not in grid:', dk); return
     target = None
     for tier in ('quick', 'thorough'):
         for d in grid(tier):
